@@ -22,7 +22,7 @@ def angle_from_pair(m, c, s):
     return math.atan2(pysym.model_float(m, s), pysym.model_float(m, c))
 
 def run_identities(ck, name, fn, replay=None, timeout_ms=20000, maxpaths=2000, stretch=False, key=None,
-                   expect_paths=None, pre=None, keyfn=None, budget_s=None):
+                   expect_paths=None, pre=None, keyfn=None, budget_s=None, vacuity=True):
     """fn() -> dict(goals=[(label, z3 Bool goal)], inputs={name: term}, pre=[z3 Bool], angles={name:(arg,)})
     Every goal is proved under hyp & pc & pre on every path.  replay(inputs_floats, label) -> (reproduced:bool, detail)"""
     npaths = 0; nviol = 0
@@ -35,7 +35,8 @@ def run_identities(ck, name, fn, replay=None, timeout_ms=20000, maxpaths=2000, s
         pre_ = list(res.get("pre", [])) + list(pre or [])
         base = list(hyp) + list(pc) + pre_
         # vacuity witness per path: the hypotheses must be satisfiable
-        r, _ = common.solve(base, min(timeout_ms, 5000))       # vacuity witness; 'unknown' within 5 s is neither a witness nor a failure
+        r = "skipped"
+        if vacuity: r, _ = common.solve(base, min(timeout_ms, 5000))       # vacuity witness; 'unknown' within 5 s is neither a witness nor a failure
         if r == "unsat":
             ck.vacuity_fail("%s path %s" % (name, taken)); continue
         if r == "sat": ck.vacuity_ok("%s path %s" % (name, taken))
@@ -131,3 +132,37 @@ def par_paths_multi(ck, jobs, depth=4, timeout_ms=20000, maxpaths=500000):
     for tag, out, st in common.pmap(_ppm_job, work):
         res[tag] += out; ck.merge_stats(st)
     return res
+
+
+# --------------------------------------------------------------------------------------------- pure functions must have no memory
+def fresh_module_copy(mod):
+    """a pristine second instance of a module of /repo (its module-level state - caches, memo tables - starts empty)"""
+    import importlib.util, sys
+    name = mod.__name__ + "__verif_copy"
+    spec = importlib.util.spec_from_file_location(name, mod.__file__); m = importlib.util.module_from_spec(spec)
+    m.__package__ = mod.__package__ if getattr(mod, "__package__", None) else mod.__name__.rpartition(".")[0]
+    sys.modules[name] = m
+    try: spec.loader.exec_module(m)
+    finally: sys.modules.pop(name, None)
+    return m
+
+def history_goals(mod, fname, call, params, order=None):
+    """Functions documented as pure maps (parameters -> result) are called TWICE on one module instance: first with parameter `k` set to q_k, then with p_k;
+    the second result must equal the result of a first call on a pristine instance of the module.  All other parameters keep generic concrete values, so that
+    a memo table keyed on them is really exercised (a symbolic key would fall into any `except TypeError` fallback).  One goal list per parameter.
+    call(module_instance, fname, params_dict) -> flat list of result entries"""
+    goals = []; was = pysym.NPProxy.FLOATS_AS_OBJECTS; pysym.NPProxy.FLOATS_AS_OBJECTS = True
+    try: return _history_goals(mod, fname, call, params, order, goals)
+    finally: pysym.NPProxy.FLOATS_AS_OBJECTS = was
+def _history_goals(mod, fname, call, params, order, goals):
+    for k in (order or list(params)):
+        pk = pysym.var("p_" + k); qk = pysym.var("q_" + k)
+        m0 = fresh_module_copy(mod); m1 = fresh_module_copy(mod)
+        with pysym.symbolize(m0): ref = call(m0, fname, dict(params, **{k: pk}))
+        with pysym.symbolize(m1):
+            call(m1, fname, dict(params, **{k: qk}))
+            got = call(m1, fname, dict(params, **{k: pk}))
+        if len(ref) != len(got): goals.append(("H %s: second call with another %s returns %d values, a pristine module %d" % (fname, k, len(got), len(ref)), z3.BoolVal(False))); continue
+        for i, (a, b) in enumerate(zip(got, ref)):
+            goals.append(("H %s(%s := p) after %s(%s := q) equals the first call of a pristine module [%d]" % (fname, k, fname, k, i), pysym.tz(a) == pysym.tz(b)))
+    return goals
